@@ -402,6 +402,8 @@ var c09Specials = []string{"plain", "with space", "q\"uote", "back\\slash", "tab
 
 func c09Tweak(r *rand.Rand, p *pgen.Program) {
 	fr := []float64{0.3, 0.25, 1.5, 0.1, 2, 3.75, 0.999, 1.01, 12, 0.07, 1e-3, 100.5}
+	// memory reservations may be negative ("at least"): inexact, exact and integral ones
+	frMem := append([]float64{-1.3, -0.7, -0.0625, -2.5, -4, -0.3, -12.01, -100.9}, fr...)
 	for _, st := range p.Stages {
 		if r.Intn(2) == 0 {
 			res := &pgen.Resources{}
@@ -409,10 +411,10 @@ func c09Tweak(r *rand.Rand, p *pgen.Program) {
 				res.HasThreads, res.Threads = true, fr[r.Intn(len(fr))]
 			}
 			if r.Intn(2) == 0 {
-				res.HasMem, res.MemGB = true, fr[r.Intn(len(fr))]
+				res.HasMem, res.MemGB = true, frMem[r.Intn(len(frMem))]
 			}
 			if r.Intn(3) == 0 {
-				res.HasVMem, res.VMemGB = true, fr[r.Intn(len(fr))]
+				res.HasVMem, res.VMemGB = true, frMem[r.Intn(len(frMem))]
 			}
 			if r.Intn(3) == 0 {
 				res.HasSpecial, res.Special = true, c09Specials[r.Intn(len(c09Specials))]
